@@ -241,6 +241,31 @@ func cmdCheck(args []string) {
 	work := filepath.Join(*verif, ".work", *prop+"-"+*tier)
 	os.RemoveAll(work)
 	vc.Discharge(obls, vc.SolveOpts{Timeout: timeout, Workers: 14, TmpDir: work})
+	// second chance: an obligation the portfolio did not decide (timeout / unknown, no counterexample) is tried
+	// again with a much longer timeout and few workers before it is reported; a loaded machine must not turn a
+	// slow proof into an alarm. Obligations with a counterexample (sat) are not retried.
+	{
+		var again []*vc.Obligation
+		for _, o := range obls {
+			if o.Status != "discharged" && o.Expect != "sat" && o.Result != "sat" {
+				listed := false
+				for _, k := range known.Findings {
+					if k.Obligation == o.ID() || k.Obligation == pathSuffixRe.ReplaceAllString(o.ID(), "") {
+						listed = true // a recorded finding is expected to fail: no second attempt
+					}
+				}
+				if !listed {
+					again = append(again, o)
+				}
+			}
+		}
+		if len(again) > 0 && len(again) <= 40 {
+			for _, o := range again {
+				o.Retried = true
+			}
+			vc.Discharge(again, vc.SolveOpts{Timeout: 6 * timeout, Workers: 4, TmpDir: work})
+		}
+	}
 	// expected obligations
 	expFile := filepath.Join(*verif, "expected", *prop+".json")
 	present := map[string]bool{}
@@ -402,6 +427,15 @@ func cmdCheck(args []string) {
 			"evaluations": len(obls), "distinct_nontrivial": discharged,
 			"rule":             "one SMT query per generated obligation; an obligation is non-trivial when its goal is not syntactically true (all generated obligations are)",
 			"explanation":      explanation,
+			"second_pass_obligations": func() []string {
+				out := []string{}
+				for _, o := range obls {
+					if o.Retried {
+						out = append(out, o.ID()+" -> "+o.Status)
+					}
+				}
+				return out
+			}(),
 			"bounded_standins": boundedEvidence(bounded),
 			"syntactic_scans":  scanEv,
 		},
